@@ -19,6 +19,21 @@ sys.setrecursionlimit(10000)
 
 def one(args):
     prop, root = args
+    import signal
+
+    def _alarm(signum, frame):
+        raise TimeoutError("analysis timeout")
+    signal.signal(signal.SIGALRM, _alarm)
+    signal.alarm(240)
+    try:
+        return _one(prop, root)
+    except TimeoutError:
+        return prop, [], [("%s.engine" % prop, "<module>", "analysis did not finish within 240 s")], [], 240.0
+    finally:
+        signal.alarm(0)
+
+
+def _one(prop, root):
     from check import analyse
     from tfsa.report import load_known, match_known
     t = time.time()
